@@ -243,8 +243,16 @@ def run(ctx):
                 # the caller must refuse when the salt was already there
                 gs = [g for g in gates_of_value(b, x[2]["dest"][0]) if g.kind == "bool"]
                 from .common import err_only
-                if gs and any(err_only(prog, b, g.bool_target(False)) for g in gs):
+                decides = bool(gs) and any(err_only(prog, b, g.bool_target(False)) for g in gs)
+                if decides:
                     combined.append(x)
+                # every call, not just one of them: a second call site that records the salt and ignores the answer accepts a handshake whose
+                # salt a concurrent copy recorded first (the earlier separate lookup is not the same locked step)
+                ctx.ob("K3", b.defp, "test-and-set-answer-decides", loc(x[2]["sp"]), decides,
+                       "the `already recorded` answer of the atomic test-and-set only reaches a refusal" if decides else
+                       f"`{x[1].name}` answers whether the salt was already recorded, and this call site does not refuse on that answer (result unused or not leading to Err): "
+                       "the membership test that protects this path is a separate, earlier lock acquisition, so of several concurrent copies of one handshake that all passed "
+                       "it, all are accepted")
         inserts_plain = [x for x in cs if accessors[x[1].target] == {"insert"}]
         lookups = [x for x in cs if accessors[x[1].target] == {"lookup"}]
         inserts = [x for x in cs if accessors[x[1].target] == {"insert"}]
@@ -277,6 +285,16 @@ def run(ctx):
                 bad = [y for y in ys if y in reach]
                 ctx.ob("K4", b.defp, "std-guard-across-await", loc(t["sp"]), not bad, "guard dropped before the next await" if not bad else "a std lock guard is live across an .await: the worker thread can block every other flow scheduled on it")
     ctx.ob("K4", "workspace", "scan", "-", True, f"{n_cor} coroutine bodies scanned for std lock guards across await", nontrivial=False, ordinal=False)
+
+    # ---------------- K9 a lock is not taken again while its guard is alive --------------------------------
+    from .common import relock_sites, is_lock_call
+    n_locks = sum(1 for b in bodies for (_, c, _) in b.calls() if is_lock_call(c) and "tokio::sync" not in c.target)
+    ctx.floor("K9", "blocking lock acquisitions scanned", 1, n_locks)
+    for (b, t, t2, c2, how) in relock_sites(prog):
+        ctx.ob("K9", b.defp, f"no-relock-while-guard-alive:{c2.method}", loc(t2["sp"]), False,
+               f"`{c2.name}` acquires the lock {how} while the guard taken at {loc(t['sp'])} is still alive (a guard that is a temporary of a match / if-let scrutinee lives "
+               "to the end of that statement): the lock is not re-entrant, so the thread blocks forever holding the guard, and every other flow that needs this shared state blocks behind it")
+    ctx.ob("K9", "workspace", "scan", "-", True, f"{n_locks} blocking lock acquisitions scanned for re-acquisition under a live guard", nontrivial=False, ordinal=False)
 
     # ---------------- K5 unsafe impl Send/Sync ---------------------------------------------------------
     n_imp = 0
